@@ -29,12 +29,12 @@ type laneCfg struct {
 
 var lanes = map[string][]laneCfg{
 	"C10": {
-		{Name: "stub", Worker: "stub", QuickRuns: 240000, Chunk: 5000, Share: 4},
-		{Name: "real-sync.Pool", Worker: "real", QuickRuns: 40000, Chunk: 2500, Share: 1},
+		{Name: "stub", Worker: "stub", QuickRuns: 240000, Chunk: 2000, Share: 4},
+		{Name: "real-sync.Pool", Worker: "real", QuickRuns: 40000, Chunk: 1000, Share: 1},
 	},
 	"C11": {
 		{Name: "stub-race", Race: true, Worker: "stub", QuickRuns: 24000, Chunk: 500, Share: 3},
-		{Name: "stub-norace", Worker: "stub", QuickRuns: 256000, Chunk: 4000, Offset: 1 << 32, Share: 1},
+		{Name: "stub-norace", Worker: "stub", QuickRuns: 256000, Chunk: 2000, Offset: 1 << 32, Share: 1},
 	},
 	"C19": {
 		{Name: "race", Race: true, Worker: "stub", QuickRuns: 32000, Chunk: 500, Share: 1},
